@@ -14,20 +14,33 @@ import JominiModel.Proofs.WriterBinary
 import JominiModel.Proofs.WriterMixedParse
 import JominiModel.Proofs.WriterSink
 import JominiModel.Proofs.WriterFullCalls
+import JominiModel.Proofs.WriterExamples
 /-
 C15 — Well-formed sequences of writer calls parse back to exactly what was written.
-Only property theorems live here; helper lemmas are in `Proofs/Writer.lean`, reference
-definitions in `Spec/Writer.lean`.
+Only property theorems live here; helper lemmas are in `Proofs/Writer*.lean`, reference
+definitions in `Spec/Writer*.lean`.
 
 Clauses and where they are decided
-  * quoted payloads survive escaping ............ C15_escape_opaque, C15_unescape (all byte strings)
-  * depth()/expecting_key() reflect the calls ... C15_state_reflects_calls (all call lists)
-  * misordered calls: error or output, no panic . C15_total (all states, all calls)
-  * integers read back exactly .................. C15_ints
-  * the output parses to the described structure  growth theorem C15_lexemes, NOT proved (the tape
-    parser is another slice's model); decided on the implementation by the L3 oracle of
-    harness/src/props/c15.rs (re-parse with the real `TextTape::from_slice`)
-  * floats within 2 ulp ......................... float `Display` is not modelled; L3 oracle only
+  * quoted payloads survive escaping ............ C15_escape_opaque, C15_unescape, C15_quoted_output (all byte strings;
+    "survive" = up to ONE trailing newline, which `write_quoted` documents to trim — writer.rs:300; the oracle
+    counts such payloads as an explicit exclusion)
+  * depth()/expecting_key() reflect the calls ... C15_state_reflects_calls, C15_state_payload_independent,
+    C15_state_after_calls (all call lists)
+  * misordered calls: error or output, no panic . C15_total, C15_end_on_empty_stack, C15_total_run,
+    C15_error_state_unreachable (all states, all calls); I/O errors of the sink: C15_failing_sink
+  * integers read back exactly .................. C15_ints (every i64 / u64, `i64::MIN` included)
+  * the output parses to the described structure, end to end through the text-tape parser model:
+      C15_parse_back_containers (objects, arrays, empty containers, headers, every start flavour, typed
+      scalars) with its instances _flat / _typed / _nested / _arrays; C15_rgb_parse_back; C15_mixed_parse_back;
+      C15_parse_back_full / C15_mixed_parse_back_containers (the call list of every document of the text-tape
+      slice's full document type, mixed-mode lists with containers included); the exact bytes: C15_lexemes_*
+  * `write_binary` forwarding ................... C15_write_binary_eq_calls (true by definition of the model)
+  * recorded findings on the models ............. C15_known_mixed_mode_lost_after_container,
+    C15_known_operator_under_stale_mixed_mode
+  * floats within 2 ulp ......................... float `Display` is not modelled (C15_float_text_shape covers the
+    text shape); the numeric clause is decided by the L3 oracle only
+  * tie to the real code: differential run `wcalls` / `wcallsw` (WRITE_STATE_NEXT measured), L3 oracle of
+    harness/src/props/c15.rs (re-parse with the real `TextTape::from_slice`, read-back through Scalar / decoders)
 -/
 namespace Jomini.Props.C15
 open Jomini Jomini.Writer Jomini.Writer.Spec
@@ -45,8 +58,11 @@ theorem C15_escape_opaque (x r : Bytes) :
 example : scanQuotedScalar (34 :: (escape [97, 92] ++ 34 :: [61, 34])) = some ([97, 92, 92], [61, 34]) := by
   rfl
 
-/-- Deleting the backslash escapes of `escape x` gives `x` minus one trailing newline (the
-documented quirk), for ALL byte strings. -/
+/-- Deleting the backslash escapes of `escape x` gives `x` minus one trailing newline, for ALL byte
+strings: `unescape (escape x) = dropOneTrailingNewline x`.  So "quoted payloads survive escaping" holds
+exactly for payloads that do not end in `\n`; for the others ONE newline is lost — `write_quoted` documents
+that it "will trim trailing newlines" (writer.rs:300), and the C15 oracle compares such payloads minus that
+newline and counts them (`excluded:quoted-payload-ends-in-newline…`). -/
 theorem C15_unescape (x : Bytes) : unescape (escape x) = dropOneTrailingNewline x := by
   rw [escape_eq_spec, escapeSpec]
   exact unescape_escapeEach _
@@ -65,7 +81,11 @@ theorem C15_quoted_output (s s' : State) (x : Bytes) (h : writeQuoted s x = .ok 
 /-- For EVERY call list, indent configuration and payloads: what a caller observes after each
 call (`depth()`, `expecting_key()`, `at_array_value()`, `at_unknown_start()`, or the error) is
 what the payload-free reference automaton `Spec.refRun` computes from the *kinds* of the calls
-made so far, and the final depth is the number of unmatched starts of the history. -/
+made so far, and the final depth is the number of unmatched starts of the history.
+What this says independently of the model: the first conjunct amounts to PAYLOAD INDEPENDENCE (`refRun` is the
+same state machine with the output and the payloads erased — see `C15_state_payload_independent`); the
+independent specification is the second conjunct, `depth = unmatchedStarts`, plus the measured transition table
+and the `wcalls` correspondence, which compares every observation with the real writer. -/
 theorem C15_state_reflects_calls (cs : List Call) (indentChar : UInt8) (indentFactor : Nat) :
     (run cs (State.init indentChar indentFactor)).2 = refRun (cs.map kind) Core.init ∧
     (run cs (State.init indentChar indentFactor)).1.depthLen = unmatchedStarts (cs.map kind) 0 := by
@@ -449,6 +469,14 @@ theorem C15_parse_back_containers (fs : GFields) (c : UInt8) (f : Nat) (hc : Tex
   rw [C15_lexemes_containers fs ho] at hb ⊢
   exact WriterParse.parse_gtextRoot c f hc fs hg hb
 
+/-- `a={ {b=1} 2 { } } c=rgb { 1 2 }` in call-list form (`write_start`, inner object through
+`write_array_start` + `=`, typed scalars, `write_header`): `Opened` and `Good` are PROVED
+(Proofs/WriterExamples.lean) and the theorem applies -/
+example : ∃ T, TextTape.parse (run (gcallsF WriterExamples.gContainers) (State.init 32 1)).1.out = .ok T false ∧
+    T.map TextTape.Tok.erase = TextTape.ktapeF (gcontentF WriterExamples.gContainers) 0 :=
+  C15_parse_back_containers WriterExamples.gContainers 32 1 (by decide +kernel) WriterExamples.gContainers_opened
+    WriterExamples.gContainers_good (by decide +kernel)
+
 /-- `a={ {b=1} 2 { } }` opened with `write_start`, the inner object with `write_array_start` + `=`;
 `c=rgb { 1 2 }` through `write_header`: the tape computed by the two models -/
 example : TextTape.parse (run (gcallsF (.cons (.unq [97]) none
@@ -468,7 +496,9 @@ does exactly what the direct call `binCall tok` does (Array → `write_array_sta
 write, Token → `__unknown_0x<hex>` unquoted, Rgb → `write_rgb`): same result, same error.  Hence a
 call list that uses `write_binary` anywhere behaves — final state, bytes, and what is observable
 after every call — exactly like the list with the direct calls (`unbin`), and every parse-back
-theorem above transfers to it. -/
+theorem above transfers to it.  TRUE BY DEFINITION OF THE MODEL (`cases t <;> rfl`: `writeBinary` is written
+as that dispatch); that the real `write_binary` forwards the same way is carried by the `wcalls`
+correspondence over every `BinaryToken` kind (`bt:` call tokens). -/
 theorem C15_write_binary_eq_calls :
     (∀ (s : State) (t : BinTok), step s (.binary t) = step s (binCall t)) ∧
     (∀ (cs : List Call) (s : State), run (cs.map unbin) s = run cs s) :=
@@ -640,6 +670,14 @@ example : ∃ T, TextTape.parse (run (dcallsF (WriterParse.mixedLay 32 2
       bareQuestion, gluesOp, closesV, SCall.scal, TextTape.Scal.text]
   · simp [WriterParse.mixedLay, WriterParse.elemVals, WriterParse.pairItems, CallsOKF, CallsOKV, CallsOKVs, CallsOKI]
 
+/-- `a={ b=rgb{ 1 } c={ x=y } } e={ 1 f=g {h=i} z }` (header as first field, nested object, an array that turns
+mixed with an object in its array part): `FValidF`, `FPlainF`, `CallsOKF` are PROVED (Proofs/WriterExamples.lean)
+and the theorem applies to its call list -/
+example : ∃ T, TextTape.parse (run (dcallsF WriterExamples.dMixed) (State.init 32 2)).1.out = .ok T false ∧
+    T.map TextTape.Tok.erase = TextTape.dtapeF WriterExamples.dMixed 0 :=
+  C15_parse_back_full WriterExamples.dMixed [10] 32 2 (by decide +kernel) WriterExamples.dMixed_valid
+    WriterExamples.dMixed_plain WriterExamples.dMixed_calls (by decide +kernel)
+
 /-- **Mixed-mode call lists with containers** (`C15_mixed_parse_back` beyond scalars): the instance of
 `C15_parse_back_full` for one root field whose value is an array that turns mixed —
 `key, write_array_start, elements…, start_mixed_mode, key, operator, (values | key operator value |
@@ -772,31 +810,19 @@ example : (runSink 6 [.unquoted [97], .arrayStart, .unquoted [98], .end] (State.
   decide +kernel
 
 /-
-Growth theorem, NOT proved in general (full statement kept; `C15_lexemes_partial` is its flat instance):
-
-  theorem C15_lexemes (cs : List Call) (c : UInt8) (f : Nat) (h : WellFormedCalls cs) :
-      TextLex (run cs (State.init c f)).1.out = lexemesOf cs
-
-  where `WellFormedCalls` is the document grammar over calls (keys followed by values,
-  containers opened as object / array / unknown and closed in balance, operators, headers),
-  `TextLex` the lexer of the text format and `lexemesOf` the lexeme list the calls describe; and
-  hence, with C01's `C01_faithful`, `parse (run cs _).out = tapeOf (docOf cs)`.
-
-  Proved so far: flat documents (`C15_lexemes_flat`, `C15_parse_back_flat`) and nested objects
-  to any depth (`C15_lexemes_nested`, `C15_parse_back_nested`), root-level arrays of scalars
-  and empty containers with every start flavour (`C15_lexemes_arrays`, `C15_parse_back_arrays`),
-  the typed scalar calls in every scalar position (`C15_typed_scalars_valid`).  and the general container fragment
-  (`C15_lexemes_containers`, `C15_parse_back_containers`: objects, arrays of scalars and of
-  containers, empty containers, headers, any nesting, every start flavour).  `write_binary`
-  forwarding and `write_rgb` reduce to these (`C15_write_binary_eq_calls`, `C15_rgb_parse_back`), float
-  texts are valid scalars (`C15_float_text_shape`), scalar-only mixed-mode call lists parse back
-  (`C15_mixed_parse_back`), and `C15_parse_back_full` covers the call list of every document of the
-  text-tape slice's full document type (mixed-mode lists with containers included).  Missing: the shapes the format cannot express (first element of an array
-  an empty container, header with empty body, header / scalar directly followed by a container
-  inside an array).  Until then the clause is decided on the real code: the harness re-parses the
-  output of every well-formed call list with `TextTape::from_slice` and compares it with an
-  independent transcription of the described document (oracle kinds `wf-parse-back`,
-  `wf-output-does-not-parse`, `wf-state`).
+Status of the growth theorem `C15_lexemes` / "the output parses to exactly the described structure" (first stated
+in round 1 over an abstract `WellFormedCalls` / `lexemesOf`): it is PROVED end to end through the text-tape parser
+model for the call lists of the general container fragment with every start flavour and every scalar call
+(`C15_parse_back_containers`, bytes `C15_lexemes_containers`) and for the call list of every valid document of the
+text-tape slice's full document type (`C15_parse_back_full`: headers, arrays that turn mixed with containers, any
+nesting), with `write_binary` forwarding, `write_rgb` and float texts reducing to these.  Outside, each witnessed
+on the real code: the two recorded findings of the single `mixed_mode` flag (`C15_known_*`, oracle kinds
+`mixed-mode-lost-after-container`, `operator-under-stale-mixed-mode`), `?=` / the bare key `?` in mixed mode
+(counted `not-wf:mixed-*(reported)`), and the shapes the format cannot express (first element of an array an empty
+container, header with empty body, header / scalar directly followed by a container inside an array; a container
+in the array part that does not start with a scalar — parser quirk).  The harness re-parses the output of every
+well-formed call list with `TextTape::from_slice` and compares it with an independent transcription of the
+described document (oracle kinds `wf-parse-back`, `wf-output-does-not-parse`, `wf-state`).
 -/
 
 end Jomini.Props.C15
